@@ -126,7 +126,8 @@ def check_events(ctx):
     # ---- R2: re-basing
     writes = [e for e in uniq_events(it, {'column_write'}, inside) if e['frame'] is not None and e['frame'].ty == 'DataFrame' and e['aug']]
     if not writes:
-        ctx.ob('R2', fi, 're-basing', False, 'event times of the parts are not re-based to the start of the part')
+        from .common import absent
+        ctx.ob('R2', fi, 're-basing', absent(it, fi.qualname), 'event times of the parts are not re-based to the start of the part')
     for e in writes:
         fr, val = e['frame'], e['value']
         copied = fr.store == 'fresh' or fr.fresh
